@@ -80,7 +80,7 @@ _meta_lock = threading.Lock()
 def _tlc_cmd(module, cfg, metadir, workers, extra, xmx):
     return ["java", "-Xss1g", "-Xmx%s" % xmx, "-XX:+UseParallelGC",
             "-cp", JAR, "tlc2.TLC", "-workers", str(workers), "-config", cfg,
-            "-metadir", metadir, "-cleanup", "-noGenerateSpecTE"] + extra + [module]
+            "-metadir", metadir, "-cleanup", "-noGenerateSpecTE", "-maxSetSize", "20000000"] + extra + [module]
 
 
 def tlc(module, cfg, wd, workers=None, extra=None, env=None, timeout=1800, xmx="8g", out_path=None):
